@@ -19,6 +19,9 @@ pub struct SizedFile
     pub stmts: Vec<(bool, u32)>,
     pub post_pad: u32,
     pub final_newline: bool,
+    /// put the first statement's line at exactly this byte offset (buffer-boundary classes)
+    #[serde(default)]
+    pub align: Option<u32>,
 }
 
 #[derive(Clone, Debug, PartialEq, Eq, Hash, Serialize, Deserialize)]
@@ -68,6 +71,22 @@ impl SizedTree
         {
             let mut t = String::from("fn generated() {\n");
             pad(&mut t, f.pre_pad, &mut counter);
+            if let Some(a) = f.align
+            {
+                // fill with one exact-length comment line so that the next line starts at offset `a`
+                let a = a as usize;
+                while t.len() + 4 < a && a - t.len() > 200
+                {
+                    t.push_str("    // filler line up to a buffer boundary ....................................................\n");
+                }
+                if a > t.len() + 4
+                {
+                    let n = a - t.len() - 4;
+                    t.push_str("// ");
+                    t.push_str(&"a".repeat(n));
+                    t.push('\n');
+                }
+            }
             for (si, (has, after)) in f.stmts.iter().enumerate()
             {
                 let uid = format!("f{}s{}", fi, si);
@@ -132,12 +151,25 @@ pub fn sized_file(min_stmts: usize, max_stmts: usize, big: bool) -> BoxedStrateg
         vec((prop_oneof![3 => Just(false), 1 => Just(true)], sc2), min_stmts..=max_stmts),
         sc,
         prop_oneof![4 => Just(true), 1 => Just(false)],
+        if big
+        {
+            prop_oneof![
+                5 => Just(None),
+                2 => (proptest::sample::select(&[4096u32, 8192, 16384, 32768, 65536][..]), 0u32..90).prop_map(|(b, d)| Some(b + d - 45)),
+            ]
+            .boxed()
+        }
+        else
+        {
+            Just(None).boxed()
+        },
     )
-        .prop_map(|(pre_pad, stmts, post_pad, final_newline)| SizedFile {
-            pre_pad,
+        .prop_map(|(pre_pad, stmts, post_pad, final_newline, align)| SizedFile {
+            pre_pad: if align.is_some() { pre_pad.min(2000) } else { pre_pad },
             stmts,
             post_pad,
             final_newline,
+            align,
         })
         .boxed()
 }
